@@ -79,7 +79,11 @@ Example C14_example_store :
     Some (RdOk (apx_result [a; c; d] [(c, a); (d, a); (c, d)])).
 Proof.
   cbv zeta. split; [eexists; eexists; reflexivity|].
-  split; [vm_compute; repeat constructor|]. vm_compute. repeat split; reflexivity.
+  match goal with |- Forall _ ?args /\ _ =>
+    assert (E : args = [(0, [97%N]); (2, [99%N]); (3, [100%N])]) by (vm_compute; reflexivity)
+  end.
+  split; [rewrite E; repeat constructor|].
+  split; [exact E|]. split; vm_compute; reflexivity.
 Qed.
 
 (* UTF-8: decoding what was encoded gives the string back (every Rust String) *)
